@@ -234,11 +234,16 @@ def volume_factor_reference(site, k=None):
 class StepObserver:
     """Registered with addCouplingModel; callback(model, step_index) after every accepted step."""
 
-    def __init__(self, callback=None, max_steps=None):
+    def __init__(self, callback=None, max_steps=None, wall_budget=None):
+        import time
         self.callback = callback
         self.max_steps = max_steps
         self.steps = 0
         self.capped = False
+        # optional wall-clock budget of a single free run (never used for paired / reference runs, whose step counts must
+        # agree): the run is ended like a logical cap, every completed step has been monitored, only coverage is lost
+        self.deadline = None if wall_budget is None else time.monotonic() + float(wall_budget)
+        self.time_capped = False
 
     def updateCoupledModel(self, model):
         self.steps += 1
@@ -247,6 +252,12 @@ class StepObserver:
         if self.max_steps is not None and self.steps >= self.max_steps:
             self.capped = True
             raise StopRun()
+        if self.deadline is not None and self.steps % 20 == 0:
+            import time
+            if time.monotonic() > self.deadline:
+                self.capped = True
+                self.time_capped = True
+                raise StopRun()
 
 
 class MonIterator:
